@@ -124,6 +124,8 @@ class TypeInfer:
         """The initialiser expression of the field in the __init__ of its owner (or nearest class that sets it)."""
         for c in self.prog.mro(ci):
             for fn, node in self._class_fields.get(c.qualname, {}).get(name, []):
+                if fn.name == '__init__' and isinstance(node, ast.AnnAssign) and node.value is not None:
+                    return fn, node.value
                 if fn.name == '__init__' and isinstance(node, ast.Assign):
                     # `self.a, self.b = x, y`: the element assigned to this field
                     sn = self._self_name(fn)
